@@ -515,7 +515,9 @@ func (x *vc09Exec) checkImage(k int, fsop, mode string, mem *vfs.MemFS, meta vc0
 		step = &x.steps[s-1]
 		h.st.inflight++
 		where += fmt.Sprintf(", in-flight step %s", step.Kind)
-		if meta.WalWrites >= 2 && strings.HasPrefix(fsop, "write ") {
+		if meta.WalWrites >= 2 && strings.HasPrefix(fsop, "write ") && step.Kind != "dis" {
+			// every step except dis commits exactly one engine batch: a second WAL write
+			// means the batch record spans WAL blocks and this point lies inside it
 			h.st.insideWalBatch++
 		}
 		if s >= 2 && x.steps[s-2].EvIdx == step.EvIdx && (step.Kind == "trim" || step.Kind == "adopt") {
@@ -780,13 +782,26 @@ func TestVerifC09(t *testing.T) {
 			&vc09History{name: "group2", prefix: []string{"xhw:A", "xhw:B"}, events: []string{"ckb:A", "fol:B"}, par: true},
 			// restore cleanup paging: > 1024 rows, i.e. two page batches and the final wipe
 			&vc09History{name: "paging", prefix: []string{"bulk:A:600", "bulk:A:500", "xhw:B"}, events: []string{"dis:A"}},
-			&vc09History{name: "paging-then-append", prefix: []string{"bulk:A:600", "bulk:A:500"}, events: []string{"dis:A", "xhw:A"}},
 		)
+		if r.Thorough() {
+			hs = append(hs, &vc09History{name: "paging-then-append", prefix: []string{"bulk:A:600", "bulk:A:500"}, events: []string{"dis:A", "xhw:A"}})
+		}
+	}
+	if only := os.Getenv("VC09_ONLY"); only != "" {
+		var keep []*vc09History
+		for _, h := range hs {
+			if strings.Contains(h.label(), only) {
+				keep = append(keep, h)
+			}
+		}
+		hs = keep
 	}
 	total := len(hs)
 	// VERIF_SEED only permutes the order in which histories are executed
 	rng := rand.New(rand.NewSource(r.Seed()))
 	rng.Shuffle(len(hs), func(i, j int) { hs[i], hs[j] = hs[j], hs[i] })
+	// the few expensive special histories go first so that they spread over the shards
+	sort.SliceStable(hs, func(i, j int) bool { return hs[i].name != "seq" && hs[j].name == "seq" })
 	shardI, shardN := r.Shard()
 	if shardN > 1 {
 		var mine []*vc09History
@@ -872,7 +887,7 @@ func TestVerifC09(t *testing.T) {
 	r.Section(ev.Section{Name: "crash", Kind: "crash", Evaluations: tot.images, Distinct: tot.inflight, Validated: tot.images,
 		Exhaustive: exhaustive, Outcomes: 2, WallS: time.Since(start).Seconds(),
 		Bounds: map[string]any{"alphabet": alphabet, "max_history_length": maxLen, "channels": 2, "histories_total": total, "histories_this_shard": len(hs),
-			"special_histories": []string{"group1", "group2", "paging", "paging-then-append"}, "images_per_point": "kill + power-loss"},
+			"special_histories": "group1, group2, paging (+ paging-then-append in thorough)", "images_per_point": "kill + power-loss"},
 		Note: "every mutating filesystem call made while a history runs is a crash point; both images of every point are evaluated (images with byte-identical disk content are recovered by the real Open once, see counters); " +
 			"evaluations = images reopened, distinct_nontrivial = images captured strictly inside a mutation (acknowledged < started)"})
 	r.Count("histories", int64(done.Load()))
